@@ -2,7 +2,7 @@ from outsourcer import Code
 
 from . import utils
 from .base import Expression
-from .constants import BREAK, POS, RESULT
+from .constants import BREAK, POS, RESULT, STATUS
 
 
 class Seq(Expression):
@@ -31,6 +31,10 @@ class Seq(Expression):
     def _compile(self, out, flags):
         if self.needs_parse_info:
             start_pos = out.var('start_pos', POS)
+
+        if not self.exprs:
+            # The empty sequence succeeds. (Nothing below sets the status.)
+            out += STATUS << True
 
         cargs = self.constructor_args
         which = None if cargs is None else set(cargs)
